@@ -625,9 +625,9 @@ def _c01():
     hs = _lemma_r({"r_upto16", "r_upto32"}) + _enc(genframes.ENC_Q, genframes.ENC_T)
     # round trip = enc (real encoder == reference) + D (reference pair round-trips) + P2/P1 (real decoder == reference on
     # well-shaped texts); a direct decode(encode(f)) query is kept for tiny frames as a cross-check (it costs 10+ GB beyond that)
-    hs += _lemma_ref("d", [0, 1, 2, 3, 15, 16, 17], [4, 8, 32, 64, 128, 255], LEMMA_D)
-    hs += _lemma_p([0, 1, 2, 3], [4, 8, 15, 16, 17, 32], facets=["outcome", "ok_fields"])
-    for n in [0, 1]:
+    hs += _lemma_ref("d", [0, 1, 2, 3, 15, 16, 17], [4, 8, 32, 64, 128], LEMMA_D)
+    hs += _lemma_p([0, 1, 2, 3], [4, 8, 15, 16, 17], facets=["outcome", "ok_fields"])
+    for n in [1]:
         for nl in (False, True):
             hs.append(
                 H(
@@ -664,7 +664,7 @@ def _c03():
     return Prop(
         "C03",
         ["Frame::from_bytes", "frame::parse_hex", "frame::checksum", "Frame::payload", "Frame::to_bytes", "Data::try_new", "the frame regex pattern (via generated matcher)"],
-        "Lemma R: all byte strings up to 64 bytes quick / 140 bytes + lengths {129,255,256,257} thorough; Lemma P: data pairs {0,1,2,3} quick + {4,8,15,16,17,32} thorough, with and without CRLF, every hex digit of both cases; Lemma M: malformed strings of lengths {0,1,10,11,12,13,15} quick + {2,5,9,14,16,17,21,32} thorough; totality = R + P + M (no failing check anywhere)",
+        "Lemma R: all byte strings up to 64 bytes quick / 140 bytes + lengths {129,255,256,257} thorough; Lemma P: data pairs {0,1,2,3} quick + {4,8,15,16,17} thorough, with and without CRLF, every hex digit of both cases; Lemma M: malformed strings of lengths {0,1,10,11,12,13,15} quick + {2,5,9,14,16,17,21,32} thorough; totality = R + P + M (no failing check anywhere)",
         "strings longer than 257 bytes for the shape lemma (the exact lengths 521-527 around the longest legal frame exhausted 24 GB); data pair counts not listed",
         FRAME_STUBS,
         FRAME_ASSUME + ["oracle: refmodel::ref_decode (shape, then declared length, then LRC)"],
